@@ -45,10 +45,19 @@ class fixed_scalar_array(base_array):
 
     def __setitem__(self, idx, value):
         if isinstance(idx, slice):
-            self.__setslice__(idx.start, idx.stop, value)
+            if idx.step in (None, 1):
+                self.__setslice__(idx.start, idx.stop, value)
+            else:
+                self._set_extended_slice(idx, value)
         else:
             value = self._TYPE._check(value)
             self._values[idx] = value
+
+    def _set_extended_slice(self, idx, values):
+        values = [self._TYPE._check(value) for value in values]
+        if len(self._values[idx]) != len(values):
+            raise ProphyError("setting extended slice with different length collection")
+        self._values[idx] = values
 
     def __setslice__(self, start, stop, values):
         if len(self._values[start:stop]) != len(values):
@@ -95,10 +104,19 @@ class bound_scalar_array(base_array):
 
     def __setitem__(self, idx, value):
         if isinstance(idx, slice):
-            self.__setslice__(idx.start, idx.stop, value)
+            if idx.step in (None, 1):
+                self.__setslice__(idx.start, idx.stop, value)
+            else:
+                self._set_extended_slice(idx, value)
         else:
             value = self._TYPE._check(value)
             self._values[idx] = value
+
+    def _set_extended_slice(self, idx, values):
+        values = [self._TYPE._check(value) for value in values]
+        if len(self._values[idx]) != len(values):
+            raise ProphyError("setting extended slice with different length collection")
+        self._values[idx] = values
 
     def __setslice__(self, start, stop, values):
         if self._max_len and len(self) + len(values) - len(self._values[start:stop]) > self._max_len:
